@@ -153,12 +153,17 @@ class RecWindowState(State):
                          len(tr) if tr is not None else -1, AbstractContract.now))
 
 
-def make_state(case):
+def make_state(case, contracts=()):
     st_ = case.get("state", ["rec"])
     if st_[0] == "rec":
         return RecState()
     if st_[0] == "rec-inherited":
         return InheritingRecState()
+    if st_[0] == "library":
+        # the library's own features, with their default transformers fitted at construction (fit_transformers=True)
+        from tradingenv.library import FeaturePortfolioWeight, FeaturePrices
+        # (the weight feature's declared range is wider than the action bounds: held weights drift with prices)
+        return [FeaturePortfolioWeight(list(contracts), 2 * st_[1] - 1.0, 2 * st_[2] + 1.0), FeaturePrices(list(contracts))]
     if st_[0] == "features":
         # a state given as a list of features (the documented shortcut): one saved or unsaved rolling feature, one
         # feature without event callbacks
@@ -376,10 +381,11 @@ def make_env_from(b):
         env = TradingEnv(action_space=make_space(b), transmitter=tr, initial_cash=case.get("deposit", 1000.0),
                          latency=b.latency, steps_delay=case.get("delay", 0), episode_length=case.get("episode_length"))
         return env
-    env = TradingEnv(action_space=make_space(b), state=make_state(case), reward=make_reward(case.get("reward", ["simple"])),
+    env = TradingEnv(action_space=make_space(b), state=make_state(case, b.contracts), reward=make_reward(case.get("reward", ["simple"])),
                      transmitter=tr, initial_cash=case.get("deposit", 1000.0), broker_fees=fees,
                      latency=b.latency, steps_delay=case.get("delay", 0),
-                     episode_length=case.get("episode_length"), sampling_span=case.get("sampling_span"))
+                     episode_length=case.get("episode_length"), sampling_span=case.get("sampling_span"),
+                     fit_transformers=(case.get("state", ["rec"])[0] == "library"))
     return env
 
 
